@@ -27,7 +27,7 @@ man = {
     "setup_cmd": "./check setup",
     "hooks": {
         "guard": "cargo feature `verif-hooks` of frost-core",
-        "enable": "the harness crate (/verif/harness) depends on /repo/frost-core with features internals,serde,serialization,verif-hooks",
+        "enable": "the harness crate (/verif/harness) depends on /repo/frost-core with features internals,serde,serialization,verif-hooks,test-impl (test-impl: the feature every ciphersuite crate's test build enables; code compiled only under it is thereby in view)",
         "baseline_off_cmd": "cd /repo && cargo test --workspace --no-fail-fast --offline",
         "source_commits": ["46aca3b"],
         "add_only": True,
